@@ -341,7 +341,25 @@ def _brief(atoms):
     return "[" + " ".join("%s%s:%s#%s" % (a[0], a[1], a[2], a[3]) for a in atoms[:14]) + (" ..." if len(atoms) > 14 else "") + "]"
 
 
-def cmp_residue(res, exp):
+def _scribble(res):
+    """after a residue has been compared with the file it is modified by the caller (moved, renumbered): what the view hands out later
+    must still be the FILE's data -- a residue object kept and handed out again would show these changes"""
+    try:
+        import numpy
+        res.move(numpy.array([0.25, -0.5, 1.0]))
+        res.resid = 4242
+    except Exception:
+        pass
+
+
+def cmp_residue(res, exp, scribble=True):
+    d = _cmp_residue(res, exp)
+    if scribble and d is None:
+        _scribble(res)
+    return d
+
+
+def _cmp_residue(res, exp):
     try:
         o = obs_atoms(res)
     except Harness:
